@@ -1,5 +1,5 @@
 (* C08/Proofs11.v — the public decode paths and the migration of the deprecated scope fields. *)
-From Verif Require Import Common.Base C08.Model C08.Proofs1 C08.Proofs2 C08.Proofs3 C08.Proofs10.
+From Verif Require Import Common.Base C08.Model C08.Proofs1 C08.Proofs2 C08.Proofs3 C08.Proofs5 C08.Proofs10.
 Local Open Scope N_scope.
 
 Section Mig.
@@ -98,13 +98,21 @@ Proof.
 Qed.
 
 (* ---- the public protobuf decode paths ---- *)
-(* on bytes that decode to a payload without deprecated fields every public path gives that payload *)
-Theorem public_paths_agree_l m b v :
+(* every public path is the generated Unmarshal followed by the migration, hence ALL public paths
+   decode every byte string alike (deprecated fields or not) *)
+Theorem decode_path_is_migrate_l p m b : decode_path Sc p m b = option_map (migrate Sc m) (decode Sc m b).
+Proof. unfold decode_path. destruct p; reflexivity. Qed.
+
+Theorem public_paths_agree_l m b p q : decode_path Sc p m b = decode_path Sc q m b.
+Proof. rewrite !decode_path_is_migrate_l. reflexivity. Qed.
+
+(* on bytes that decode to a payload without deprecated fields they all give exactly what the generated
+   Unmarshal gives *)
+Theorem public_paths_plain_l m b v :
   decode Sc m b = Some v -> no_deprecated Sc m v = true ->
   forall p, decode_path Sc p m b = Some v.
 Proof.
-  intros Hd Hn p. unfold decode_path. destruct (path_migrates p); rewrite Hd; [|reflexivity].
-  cbn [option_map]. rewrite migrate_id_l by exact Hn. reflexivity.
+  intros Hd Hn p. rewrite decode_path_is_migrate_l, Hd. cbn [option_map]. rewrite migrate_id_l by exact Hn. reflexivity.
 Qed.
 
 (* the migrating path is the non-migrating one followed by the migration, and idempotent on its result *)
@@ -113,6 +121,39 @@ Theorem migrate_idem_l m v :
                     slot_index (mfields (msg Sc mr)) 1000 <> None -> slot_index (mfields (msg Sc mr)) 2 <> None) ->
   res_shaped Sc m v = true -> migrate Sc m (migrate Sc m v) = migrate Sc m v.
 Proof. intros Hs Hr. apply migrate_id_l. apply migrate_clears_l; assumption. Qed.
+
+(* what the decoder builds has one slot per field in every resource (from the decoder invariant) *)
+Lemma norm_fields_length ds : forall vs, length (norm_fields Sc ds vs) = length vs.
+Proof. induction ds as [|d ds IH]; intros [|v vs]; cbn [norm_fields length]; auto. Qed.
+
+Hypothesis Hwf : wf_schema Sc = true.
+
+Lemma decode_res_shaped m b v : decode Sc m b = Some v -> res_shaped Sc m v = true.
+Proof.
+  intros Hd. pose proof (decode_canonical_l Sc Hwf m b v Hd) as Hc.
+  unfold decode in Hd. destruct (dec_fields Sc (length b) (mfields (msg Sc m)) (mdefault (msg Sc m)) b) as [fs|]; [|discriminate].
+  inversion Hd; subst v. clear Hd.
+  unfold canonical, norm in Hc. apply G_canon in Hc. destruct Hc as [Hc _].
+  unfold res_shaped.
+  destruct (find_field (mfields (msg Sc m)) 1 0) as [[i1 d1]|] eqn:Ef; [|reflexivity].
+  destruct (fty d1) as [| | | |mr] eqn:Et; try reflexivity.
+  destruct (nth i1 fs VNone) as [| | |rs| |] eqn:En; try reflexivity.
+  destruct (find_field_nth_error 1 _ 0 i1 d1 Ef) as [_ Hn]. rewrite Nat.sub_0_r in Hn.
+  pose proof (canon_fields_length Sc _ _ Hc) as HL. rewrite norm_fields_length in HL.
+  apply andb_true_iff. split.
+  - apply Nat.ltb_lt. rewrite <- HL. apply nth_error_Some. congruence.
+  - pose proof (canon_nth Sc _ fs i1 d1 Hc Hn) as Hg. rewrite En in Hg.
+    unfold gs, nslot, norm_slot_with, canon_slot, canon_slot_with in Hg. rewrite Et in Hg.
+    destruct (fcd d1); try discriminate Hg.
+    + (* CRep *)
+      rewrite forallb_forall in *. intros r Hr.
+      specialize (Hg (norm_val Sc (TMsg mr) r) (in_map _ _ _ Hr)).
+      destruct r as [| |f| | |]; try discriminate Hg.
+      rewrite norm_val_msg2 in Hg. rewrite canon_val_msg in Hg. apply andb_true_iff in Hg. destruct Hg as [Hg _].
+      apply canon_fields_length in Hg. rewrite norm_fields_length in Hg. apply Nat.eqb_eq. congruence.
+    + (* CPacked: a message type cannot be packed *)
+      destruct rs as [|r rs]; [reflexivity|]. cbn [forallb] in Hg. discriminate Hg.
+Qed.
 
 (* decidable forms of the two schema conditions *)
 Definition mig_ok (m : nat) : bool :=
